@@ -84,6 +84,19 @@ func driveC17Widths(c *driverCtx) error {
 			emitCS(c, "C13", fmt.Sprintf("C17|width-array|%s|%s|len%d", p.schema, p.typ.Kind(), ln), sa, ta, v, true)
 		}
 	}
+	driveOutOfWidth(c, "C17")
+	return nil
+}
+
+// driveOutOfWidth: values that do not fit the destination's width (used by C17's width driver and by C03)
+func driveOutOfWidth(c *driverCtx, prefix string) {
+	type pair struct {
+		schema string
+		typ    reflect.Type
+		bits   uint
+	}
+	i16, i32, i64 := reflect.TypeOf(int16(0)), reflect.TypeOf(int32(0)), reflect.TypeOf(int64(0))
+	n := 0
 	// values that do not fit the destination's width, alone and as array / map items (a value outside the width is an
 	// error wherever it sits): judged like the vectors of C03 (rand_read: TLC decodes the bytes, `Fits` decides)
 	for _, p := range []pair{{`"long"`, i32, 32}, {`"long"`, i16, 16}, {`"int"`, i16, 16}} {
@@ -129,13 +142,12 @@ func driveC17Widths(c *driverCtx) error {
 				file := buildContainer([]byte(sj), codecs3[(vi+wi)%3], true, []byte("0123456789abcdef"), [][2]any{{1, b}})
 				r := readBack(t, file, readerKinds[(vi+wi)%len(readerKinds)], vi%2 == 0, -1, nil)
 				c.rec.NewCase()
-				c.rec.Emit(fmt.Sprintf("C17|out-of-width|%s|%s|%s", p.schema, p.typ.Kind(), wrap), map[string]any{
+				c.rec.Emit(fmt.Sprintf(prefix+"|out-of-width|%s|%s|%s", p.schema, p.typ.Kind(), wrap), map[string]any{
 					"op": "rand_read", "mode": "C03", "schema": sn, "records": []any{byteList(b)}, "target": projectType(t), "codec": codecs3[(vi+wi)%3],
 					"delivered": orEmpty(r.delivered), "recheck": orEmpty(r.recheck), "err": errString(r.err), "panic": r.panicked})
 			}
 		}
 	}
-	return nil
 }
 
 type primCodec struct {
